@@ -208,19 +208,10 @@ Theorem prefix_avail_after_all : forall req evs, proto_prefix_ok req evs = true 
 Proof.
   intros req evs H Hin s. apply prefix_ok_iff in H. destruct H as [rest H].
   destruct (accepts_avail_complete req _ H) as (pre & Heq & Hna & _ & Hcnt).
-  (* evs ++ rest = pre ++ [PAvail; PComplete] and PAvail is in evs but not in pre: evs extends pre ++ [PAvail] *)
-  assert (Hlen : length pre < length evs).
-  { destruct (le_lt_dec (length evs) (length pre)) as [Hle|Hlt]; [|exact Hlt]. exfalso.
-    apply Hna. assert (Hf : firstn (length evs) (evs ++ rest) = evs) by (rewrite firstn_app, Nat.sub_diag, firstn_all; cbn; apply app_nil_r).
-    rewrite Heq, firstn_app in Hf. replace (length evs - length pre) with 0 in Hf by lia.
-    cbn [firstn] in Hf. rewrite app_nil_r in Hf. rewrite <- Hf in Hin. now apply (In_firstn_aux pre (length evs)). }
-  pose proof (accepts_provided_exactly req _ H s) as Hall.
-  assert (Hpre : firstn (length pre) evs = pre).
-  { assert (Hf : firstn (length pre) (evs ++ rest) = firstn (length pre) evs)
-      by (rewrite firstn_app; replace (length pre - length evs) with 0 by lia; cbn; apply app_nil_r).
-    rewrite Heq, firstn_app, Nat.sub_diag, firstn_all in Hf. cbn in Hf. now rewrite app_nil_r in Hf. }
-  rewrite <- (firstn_skipn (length pre) evs), count_provide_app, Hpre, Hcnt.
-  assert (Hle : count_provide s evs <= count_nat s req).
-  { rewrite count_provide_app in Hall. lia. }
-  rewrite <- (firstn_skipn (length pre) evs), count_provide_app, Hpre, Hcnt in Hle. lia.
+  (* evs ++ rest = pre ++ [PAvail; PComplete], and PAvail is in evs but not in pre: evs = pre ++ l with l ++ rest = [PAvail; PComplete] *)
+  apply app_eq_app in Heq. destruct Heq as [l [[He Hr]|[Hp Hr]]].
+  - subst evs. rewrite count_provide_app, Hcnt.
+    assert (Hz : count_provide s (l ++ rest) = 0) by (rewrite <- Hr; reflexivity).
+    rewrite count_provide_app in Hz. lia.
+  - exfalso. apply Hna. rewrite Hp. apply in_or_app. now left.
 Qed.
